@@ -44,9 +44,9 @@ DRIVERS = {
     "auth": lambda rng, tier: gen.gen_auth(rng, T(tier, 16, 160), sweep_stride=T(tier, 2, 1)),
     "auth_light": lambda rng, tier: gen.gen_auth(rng, T(tier, 4, 30), sweep_stride=T(tier, 8, 3)),
     "valid": lambda rng, tier: gen.gen_valid(rng, T(tier, 120, 1500), full_every=T(tier, 3, 3)),
-    "struct": lambda rng, tier: gen.gen_struct(rng, T(tier, 40, 500)),
-    "prefix": lambda rng, tier: gen.gen_prefix(rng, T(tier, 20, 250)),
-    "text": lambda rng, tier: gen.gen_text(rng, T(tier, 25, 300)),
+    "struct": lambda rng, tier: gen.gen_struct(rng, T(tier, 80, 800)),
+    "prefix": lambda rng, tier: gen.gen_prefix(rng, T(tier, 60, 500)),
+    "text": lambda rng, tier: gen.gen_text(rng, T(tier, 60, 500)),
     "hist": lambda rng, tier: gen.gen_hist(rng, T(tier, 160, 2400), length=T(tier, (8, 30), (10, 60))),
     "hist_long": lambda rng, tier: gen.gen_hist(rng, T(tier, 8, 64), length=T(tier, (150, 200), (300, 400)), full_every=25),
     "hist_full": lambda rng, tier: gen.gen_hist(rng, T(tier, 48, 600), full_every=1),
@@ -56,9 +56,9 @@ DRIVERS = {
     "typed_q": lambda rng, tier: gen.gen_typed(rng, ALLPORTS, routes=("setter",), keys=["tcp"]) if tier == "quick"
     else gen.gen_typed(rng, ALLPORTS),
     "typed_b": lambda rng, tier: gen.gen_typed(rng, BPORTS, kts=("k256", "libsecp", "ed", "comb"), extra=T(tier, 30, 300)),
-    "eq": lambda rng, tier: gen.gen_eq(rng, T(tier, 40, 600)),
-    "cross": lambda rng, tier: gen.gen_cross(rng, T(tier, 20, 300)),
-    "nid": lambda rng, tier: gen.gen_nid(rng, T(tier, 12, 200)),
+    "eq": lambda rng, tier: gen.gen_eq(rng, T(tier, 80, 800)),
+    "cross": lambda rng, tier: gen.gen_cross(rng, T(tier, 40, 400)),
+    "nid": lambda rng, tier: gen.gen_nid(rng, T(tier, 30, 300)),
     "nodeid": lambda rng, tier: gen.gen_nodeid(rng, T(tier, 40, 2000)),
     "keys": lambda rng, tier: gen.gen_keys(rng, T(tier, 60, 3000)),
     "api": lambda rng, tier: gen.gen_api(rng, T(tier, 24, 400)),
